@@ -183,8 +183,24 @@ Definition is_meta_false (h : heap) (v : value) : bool :=
   | _ => false
   end.
 
-(* remove_meta(value): one level, lists and dicts only *)
-Definition remove_meta (h : heap) (v : value) : value :=
+(* remove_meta(value): meta-flagged members of lists and dicts removed at every depth
+   (repaired by a fix: commit; remove_meta1 is the pinned commit's one-level version) *)
+Fixpoint remove_meta (h : heap) (v : value) : value :=
+  match v with
+  | VList l => VList ((fix go (l : list value) : list value :=
+                         match l with
+                         | [] => []
+                         | x :: l' => if is_meta h x then go l' else remove_meta h x :: go l'
+                         end) l)
+  | VDict l => VDict ((fix go (l : list (bytes * value)) : list (bytes * value) :=
+                         match l with
+                         | [] => []
+                         | kv :: l' => if is_meta h (snd kv) then go l' else (fst kv, remove_meta h (snd kv)) :: go l'
+                         end) l)
+  | _ => v
+  end.
+
+Definition remove_meta1 (h : heap) (v : value) : value :=
   match v with
   | VList l => VList (filter (fun x => negb (is_meta h x)) l)
   | VDict l => VDict (filter (fun kv => negb (is_meta h (snd kv))) l)
